@@ -11,6 +11,7 @@ import time
 from pathlib import Path
 
 import e2e
+from common import pool_results
 import implrun
 import pkggen
 import stubparse
@@ -94,7 +95,7 @@ def run(ctx) -> None:
         "module paths; non-trivial = >= 3 files written; distinct by generator seed")
     implrun.WORK.mkdir(exist_ok=True)
     with mp.get_context("fork").Pool(min(12, os.cpu_count() or 4)) as pool:
-        for r in pool.imap_unordered(one_case, tasks, chunksize=1):
+        for r in pool_results(pool, one_case, tasks, ctx.deadline):
             if time.time() > ctx.deadline:
                 pool.terminate()
                 break
